@@ -1170,6 +1170,155 @@ struct Machine {
       }
     }
   }
+
+  // allocation failure injected at every allocation of a NON-mutating
+  // operation in turn (sum, product, scalar multiple, operator application,
+  // spline factor, linearCombination, copy construction, support algebra,
+  // forms): after every failed attempt every live object is bit-identical
+  // (C14) and valid (C10); once the call completes its result is judged like
+  // any other (C03/C04/C05) - a half-updated cache or lazily filled member
+  // would show in either.
+  template <size_t oa, size_t ob>
+  void stepAllocFaultPure() {
+    using namespace bspline::operators;
+    using namespace bspline::integration;
+    static const char *names[] = {
+        "alloc-fault-add",      "alloc-fault-mul",         "alloc-fault-scalar",
+        "alloc-fault-X1",       "alloc-fault-factor",      "alloc-fault-lincomb",
+        "alloc-fault-copy-ctor", "alloc-fault-support-union", "alloc-fault-forms",
+        "alloc-fault-Dx1-sub"};
+    const int kind = (int)g.below(10);
+    const size_t ia = g.below(NSLOT), ib = g.below(NSLOT);
+    beginStep(names[kind]);
+    if (g.chance(1, 2) && !(oa == ob && ia == ib)) {
+      auto pr = genPlacement(g, n(), (int)g.below(P_COUNT));
+      fresh<oa>(ia, pr.first, g.chance(1, 3));
+      fresh<ob>(ib, pr.second, g.chance(1, 3));
+    }
+    ensure<oa>(ia);
+    ensure<ob>(ib);
+    wrote(oa, ia);
+    wrote(ob, ib);
+    endStep();
+    note(std::string(names[kind]) + "(" + std::to_string(oa) + "." + std::to_string(ia) +
+         "," + std::to_string(ob) + "." + std::to_string(ib) + ")");
+    const Spline<T, oa> &a = *slot<oa>(ia).s;
+    const Spline<T, ob> &b = *slot<ob>(ib).s;
+    const Den da = slot<oa>(ia).shadow, db = slot<ob>(ib).shadow;
+    const AbsM aa = absOf(a), ab = absOf(b);
+    const std::string desc = splineStr(a) + " , " + splineStr(b);
+    const T two = mk<T>(R(2));
+    for (long k = 1; k <= 40; k++) {
+      beginStep(names[kind]);  // snapshot; empty write set
+      if (k == 1) mark();
+      faulting = true;
+      bool threw = false;
+      fp::countdown = k;
+      fp::seen = 0;
+      fp::armed = true;
+      try {
+        switch (kind) {
+          case 0: {
+            auto r = a + b;
+            fp::armed = false;
+            checkResult("C03", names[kind], r, model::dadd(da, db), absAdd(aa, ab), desc);
+            break;
+          }
+          case 1: {
+            auto r = a * b;
+            fp::armed = false;
+            checkResult("C03", names[kind], r, model::dmul(da, db), absMul(aa, ab), desc);
+            break;
+          }
+          case 2: {
+            auto r = two * a;
+            fp::armed = false;
+            checkResult("C03", names[kind], r, model::dscale(da, R(2)), absScale(aa, R(2)), desc);
+            break;
+          }
+          case 3: {
+            auto r = X<1>{} * a;
+            fp::armed = false;
+            checkResult("C04", names[kind], r, model::dmulx(da, 1), absMulX(aa, 1, gridPts), desc);
+            break;
+          }
+          case 4: {
+            auto r = SplineOperator{b} * a;
+            fp::armed = false;
+            Den ex = model::dmul(da, db);
+            const Win wa = winOf<oa>(ia);
+            for (size_t j = 0; j < ex.pc.size(); j++)
+              if (!(j >= wa.start && j + 1 < wa.end)) ex.pc[j].clear();
+            checkResult("C05", names[kind], r, ex, absMul(aa, ab), desc);
+            break;
+          }
+          case 5: {
+            if constexpr (oa == ob) {
+              std::vector<Spline<T, oa>> ms{a, b};
+              std::vector<T> cf{two, mk<T>(R(-1))};
+              auto r = bspline::linearCombination(cf, ms);
+              fp::armed = false;
+              checkResult("C03", names[kind], r, model::dsub(model::dscale(da, R(2)), db),
+                          absAdd(absScale(aa, R(2)), ab), desc);
+            }
+            break;
+          }
+          case 6: {
+            Spline<T, oa> r(a);
+            fp::armed = false;
+            if (!(r == a)) viol("C15", "copy-not-equal/alloc-fault-copy-ctor", desc);
+            checkResult("C03", names[kind], r, da, aa, desc);
+            break;
+          }
+          case 7: {
+            auto u = a.getSupport().calcUnion(b.getSupport());
+            auto i = a.getSupport().calcIntersection(b.getSupport());
+            fp::armed = false;
+            const Win wa = winOf<oa>(ia), wb = winOf<ob>(ib);
+            if (!wa.empty() && !wb.empty() &&
+                (u.getStartIndex() != std::min(wa.start, wb.start) ||
+                 u.getEndIndex() != std::max(wa.end, wb.end)))
+              viol("C13", "union/alloc-fault-support-union", desc);
+            (void)i;
+            break;
+          }
+          case 8: {
+            const T v1 = ScalarProduct{}(a, b);
+            const T v2 = LinearForm{X<1>{}}(a);
+            const T w1 = ScalarProduct{}(a, b);
+            const T w2 = LinearForm{X<1>{}}(a);
+            fp::armed = false;
+            if (!sameBits(v1, w1) || !sameBits(v2, w2))
+              viol("C14", "form-value-changed/alloc-fault-forms", desc);
+            break;
+          }
+          default: {
+            auto r = (Dx<1>{} - two) * a;
+            fp::armed = false;
+            checkResult("C05", names[kind], r,
+                        model::dsub(model::dderiv(da, 1), model::dscale(da, R(2))),
+                        absAdd(absDeriv(aa, 1), absScale(aa, R(2))), desc);
+          }
+        }
+      } catch (const std::bad_alloc &) {
+        threw = true;
+      } catch (const std::exception &e) {
+        fp::armed = false;
+        viol("C10", std::string("foreign-exception/") + names[kind], e.what());
+      }
+      fp::armed = false;
+      if (threw) {
+        c.count("alloc-fault:injected");
+        c.count(std::string("alloc-fault:") + names[kind]);
+        endStep();  // empty write set: every object bit-identical and valid
+      } else {
+        endStep();
+        c.count("alloc-fault:completed");
+        c.count("alloc-fault:pure-completed");
+        return;
+      }
+    }
+  }
 #endif
 
   // linearCombination over copies of slots of one order
@@ -1500,8 +1649,12 @@ struct Machine {
         } else if (roll < 93) {
           dispatchOrder<MAXO>(ob, [&](auto OB) { stepMigrate<A, OB.value>(); });
 #ifdef VF_FAILPOINTS
-        } else if (roll < 95) {
+        } else if (roll < 94) {
           dispatchOrder<MAXO>(ob, [&](auto OB) { stepAllocFault<A, OB.value>(); });
+        } else if (roll < 96) {
+          dispatchOrder<MAXO>(ob, [&](auto OB) {
+            if constexpr (A + OB.value <= 2 * MAXO) stepAllocFaultPure<A, OB.value>();
+          });
 #endif
         } else {
           dispatchOrder<MAXO>(ob, [&](auto OB) {
